@@ -39,7 +39,14 @@ fn comp<B: StrictOps>(f: &Res<Option<P>>, g: &Res<Option<P>>) -> Res<Option<P>> 
 }
 fn tens<B: StrictOps>(f: &Res<Option<P>>, g: &Res<Option<P>>) -> Res<Option<P>> {
     match (f, g) {
-        (Ok(Some(f)), Ok(Some(g))) => B::tensor(f, g).map(Some),
+        (Ok(Some(f)), Ok(Some(g))) => {
+            // the laws are stated for "the" tensor: the trait method and the | operator must be the same function
+            let (a, b) = (B::tensor(f, g)?, B::tensor_bitor(f, g)?);
+            if a != b {
+                return Err(Fail::Malformed(format!("LAW INSTANCE USES TWO DIFFERENT TENSORS: tensor(f, g) = {:?} but f | g = {:?}", a, b)));
+            }
+            Ok(Some(a))
+        }
         (Err(e), _) | (_, Err(e)) => Err(e.clone()),
         _ => Ok(None),
     }
